@@ -29,7 +29,7 @@ def extract_block(prog, qname: str, new_name: str, start_pred, n_stmts_pred, par
             break
     if not found:
         raise KeyError(f"extraction from {qname}: block not found (contract attachment lost)")
-    body = [copy.deepcopy(s) for s in found] + [ast.Return(value=ast.Name(id=result, ctx=ast.Load()))]
+    body = [copy.deepcopy(s) for s in found] + [ast.Return(value=ast.parse(result, mode="eval").body)]
     f = ast.FunctionDef(name=new_name, args=ast.arguments(posonlyargs=[], args=[ast.arg(arg=p) for p in params], kwonlyargs=[],
                                                           kw_defaults=[], defaults=[]), body=body, decorator_list=[], type_params=[])
     ast.fix_missing_locations(f)
